@@ -108,4 +108,14 @@ example : (runItems [[]] demo).1 = [[]] := items_restores _ _
 def demo2 : List Item := [.block .clear [.obs, .block .invalid [.obs]], .obs]
 example : (runItems [["k"]] demo2) = ([["k"]], [[]], .raised) := by decide
 
+/-- What `get_configurable` hands out under a non-empty scope `σ` is the configurable wrapped in
+    `config_scope(σ)` with `σ` as an explicit list: wherever and under whatever scope it is called
+    later, its body runs under exactly `σ`, and the caller's scope is restored afterwards. -/
+theorem handle_runs_in_captured_scope (stk : List Scope) (σ : Scope) (hv : σ.all isModuleName = true) :
+    (runItem stk (.block (.listArg σ) [.obs])).2 = ([σ], .normal) ∧
+    current (runItem stk (.block (.listArg σ) [.obs])).1 = current stk := by
+  refine ⟨?_, block_restores stk _ _⟩
+  rw [enter_semantics]
+  simp [pushed, hv]
+
 end Gin.C09
